@@ -73,10 +73,12 @@ def run_target(target, runs, max_len, workers, seeds_dir=None, dict_file=None, e
             except Exception:
                 pass
             arts = sorted(glob.glob(os.path.join(wd, "art", "*")))
-            for a in arts:
+            for a in arts[:2]:
+                if len(violations) >= 2:
+                    break
                 kind = os.path.basename(a).split("-")[0]
                 if kind == "crash" or (kind == "timeout" and hang_is_violation):
-                    fails, last = _replay(exe, a, env, timeout=per_input_timeout * 4)
+                    fails, last = _replay(exe, a, env, timeout=per_input_timeout + 10)
                     why = ""
                     try:
                         why = open(os.path.join(wd, "fail.txt")).read()
